@@ -5,9 +5,9 @@ package main
 
 const shimmed = false
 
-func ctlReset(p *planSpec)   {}
-func ctlLog() any            { return nil }
-func ctlIsCrash(v any) bool  { return false }
+func ctlReset(p *planSpec)  {}
+func ctlLog() any           { return nil }
+func ctlIsCrash(v any) bool { return false }
 func ctlRunScheduled(fns []func(), schedule []int) ([]int, error) {
 	for _, f := range fns {
 		f()
